@@ -423,6 +423,31 @@ def scene_heavy_tail(draw):
     return out
 
 
+@st.composite
+def scene_handover(draw):
+    """ 2-4 instruments with identical time stamps; each deck is seen by instrument k only during window k, and
+    consecutive windows share their boundary stamp (the last stamp of one instrument in the set is the first
+    of the next). Exercises per-instrument counting of simultaneous measurements. """
+    nc = draw(st.integers(2, 4))
+    names = draw(st.lists(st.sampled_from(CONFUSABLE + NAME_POOL), min_size=nc, max_size=nc, unique=True))
+    nt = draw(st.integers(nc * 3, 24))
+    dts = [-900.0 + 900.0 * i / nt for i in range(1, nt + 1)]
+    ndecks = draw(st.integers(1, 3))
+    meas = [(nm, dt) for nm in names for dt in dts]
+    hits = [[] for _ in meas]
+    for d in range(ndecks):
+        base = 800.0 + 2500.0 * d
+        order = list(draw(permutation(range(nc))))
+        cuts = sorted(draw(st.lists(st.integers(0, nt - 1), min_size=nc - 1, max_size=nc - 1)))
+        bounds = [0] + cuts + [nt - 1]
+        for w, k in enumerate(order):
+            lo, hi = bounds[w], bounds[w + 1]
+            for j in range(lo, hi + 1):
+                hits[k * nt + j].append(base + (j % 3) * 10)
+    rows = rows_from_hits(meas, hits)
+    return {'cls': 'handover', 'rows': draw(order_rows(rows))}
+
+
 DEGENERATE_KINDS = ['single_hit', 'all_nan', 'all_vv', 'two_rows', 'identical', 'two_heights',
                     'one_stamp_3hits', 'identical30', 'one_row_nan', 'two_heights_30', 'zero_height']
 
@@ -519,6 +544,7 @@ SCENES = {
     'double_split': scene_double_split,
     'tie_split': scene_tie_split,
     'heavy_tail': scene_heavy_tail,
+    'handover': scene_handover,
 }
 
 
